@@ -27,7 +27,7 @@ def call_index(unit, element, w, c, rules, same_id=None, foreign_name=None):
     from metapype.eml import rule
     from metapype.model.node import Node
     from metapype.eml.exceptions import ChildNotAllowedError
-    p = c01.realise(unit, element, w, rules, same_id=same_id)
+    p = c01.realise(unit, element, w, rules, same_id=same_id, prefix="ns0" if same_id else None, unregister=bool(same_id))
     r = rule.get_rule(element) if element else rule.Rule(unit)
     try:
         got = r.child_insert_index(p, Node((foreign_name if foreign_name is not None else c01.FOREIGN_NAME) if c == c01.FOREIGN else c))
